@@ -236,8 +236,8 @@ fn evaluate(sk: &Skel, rf: &[usize]) -> Option<Vec<Ev>> {
                     }
                 }
                 Some(Op::Load { loc, ord }) => Ev { tid, kind: Kind::R, loc: Some(loc), ord, wval: 0, rval, cell: None },
-                Some(Op::Await { loc, ord, .. }) => {
-                    if rval == 0 {
+                Some(Op::Await { loc, ord, min, .. }) => {
+                    if rval < min {
                         return None;
                     }
                     Ev { tid, kind: Kind::R, loc: Some(loc), ord, wval: 0, rval, cell: None }
@@ -808,8 +808,8 @@ pub fn outcomes_sc(p: &Prog) -> (BTreeSet<Vec<u64>>, bool) {
             if pcs[t] < s.p.threads[t].len() {
                 unfinished = true;
                 let op = s.p.threads[t][pcs[t]];
-                if let Op::Await { loc, .. } = op {
-                    if mem[loc as usize] == 0 {
+                if let Op::Await { loc, min, .. } = op {
+                    if mem[loc as usize] < min {
                         continue;
                     }
                 }
